@@ -1,1 +1,444 @@
 //! scratch probes (not part of any property; never run by a registered check)
+//! @jobs 6 @mem_gb 10 @quick_timeout 900
+use crate::util::*;
+use bytes::Bytes;
+use rpki::resources::asn::Asn;
+use rpki::rtr::payload::{self, Action, PayloadRef};
+use rpki::rtr::pdu::{self, *};
+
+/// @tier exp
+/// @says probe
+#[kani::proof]
+#[kani::unwind(6)]
+fn probe_p1() {
+    let mut w: [u8; 8] = kani::any();
+    w[1] = 9;
+    let mut rd = ChunkReader::new(&w, false, 0);
+    let h = block_on(pdu::Header::read(&mut rd), 2).unwrap().unwrap();
+    if h.pdu() != 9 {
+        let n: usize = kani::any();
+        let v = vec![0u8; n];
+        assert!(v.len() == n);
+    }
+}
+
+/// @tier exp
+/// @says probe
+#[kani::proof]
+#[kani::unwind(6)]
+fn probe_p2() {
+    let mut w: [u8; 8] = kani::any();
+    w[1] = 9;
+    let mut rd = &w[..];
+    let h = block_on(pdu::Header::read(&mut rd), 2).unwrap().unwrap();
+    if h.pdu() != 9 {
+        let n: usize = kani::any();
+        let v = vec![0u8; n];
+        assert!(v.len() == n);
+    }
+}
+
+/// @tier exp
+/// @says probe aspa read_payload with by-value header
+#[kani::proof]
+#[kani::unwind(6)]
+fn probe_d2_aspa_read_payload() {
+    let w: [u8; 8] = kani::any();
+    let v: u8 = kani::any();
+    let fl: u8 = kani::any();
+    let h = pdu::Header::new(v, 11, (fl as u16) << 8, 16);
+    let mut rd = ChunkReader::new(&w, false, 0);
+    let back = block_on(pdu::Aspa::read_payload(h, &mut rd), 2).unwrap().unwrap();
+    kani::cover!(w[7] == 7);
+    assert!(rd.consumed() == 8);
+    assert!(back.customer().into_u32() == be32(&w, 0));
+    assert!(back.providers().asn_count() == 1);
+    std::mem::forget(back);
+}
+
+/// @tier exp
+/// @says probe aspa read_payload with by-value header, slice reader
+#[kani::proof]
+#[kani::unwind(3)]
+fn probe_d3_aspa_read_payload() {
+    let w: [u8; 8] = kani::any();
+    let v: u8 = kani::any();
+    let fl: u8 = kani::any();
+    let h = pdu::Header::new(v, 11, (fl as u16) << 8, 16);
+    let mut rd = &w[..];
+    let back = block_on(pdu::Aspa::read_payload(h, &mut rd), 1).unwrap().unwrap();
+    kani::cover!(w[7] == 7);
+    assert!(rd.len() == 0);
+    assert!(back.customer().into_u32() == be32(&w, 0));
+    assert!(back.providers().len() == 4);
+    std::mem::forget(back);
+}
+
+/// @tier exp
+/// @says probe aspa read_payload with by-value header, slice reader, no provider
+#[kani::proof]
+#[kani::unwind(3)]
+fn probe_d4_aspa_read_payload0() {
+    let w: [u8; 4] = kani::any();
+    let v: u8 = kani::any();
+    let fl: u8 = kani::any();
+    let h = pdu::Header::new(v, 11, (fl as u16) << 8, 12);
+    let mut rd = &w[..];
+    let back = block_on(pdu::Aspa::read_payload(h, &mut rd), 1).unwrap().unwrap();
+    kani::cover!(w[3] == 7);
+    assert!(rd.len() == 0);
+    assert!(back.customer().into_u32() == be32(&w, 0));
+    assert!(back.providers().len() == 0);
+    std::mem::forget(back);
+}
+
+use tokio::io::AsyncReadExt;
+
+/// @tier exp
+/// @says probe s1
+#[kani::proof]
+#[kani::unwind(3)]
+fn probe_s1() {
+    let w: [u8; 4] = kani::any();
+    let mut rd = &w[..];
+    let mut v = vec![0u8; 4];
+    block_on(rd.read_exact(v.as_mut()), 1).unwrap().unwrap();
+    assert!(v[0] == w[0] && v[3] == w[3]);
+    std::mem::forget(v);
+}
+
+/// @tier exp
+/// @says probe s2
+#[kani::proof]
+#[kani::unwind(3)]
+fn probe_s2() {
+    let w: [u8; 4] = kani::any();
+    let mut rd = &w[..];
+    let mut v = vec![0u8; 4];
+    block_on(rd.read_exact(v.as_mut()), 1).unwrap().unwrap();
+    let b: Bytes = v.into();
+    assert!(b.as_ref()[0] == w[0] && b.len() == 4);
+    std::mem::forget(b);
+}
+
+/// @tier exp
+/// @says probe s3
+#[kani::proof]
+#[kani::unwind(3)]
+fn probe_s3() {
+    let w: [u8; 4] = kani::any();
+    let v: u8 = kani::any();
+    let h = pdu::Header::new(v, 4, 0, 20);
+    let r = h.pdu_len();
+    let l = r.unwrap().checked_sub(12).unwrap();
+    assert!(l == 8);
+}
+
+/// @tier exp
+/// @says probe s4 v4 read_payload
+#[kani::proof]
+#[kani::unwind(3)]
+fn probe_s4() {
+    let w: [u8; 12] = kani::any();
+    let v: u8 = kani::any();
+    let h = pdu::Header::new(v, 4, 0, 20);
+    let mut rd = &w[..];
+    let back = block_on(pdu::Ipv4Prefix::read_payload(h, &mut rd), 1).unwrap().unwrap();
+    assert!(back.asn().into_u32() == be32(&w, 8));
+}
+
+/// @tier exp
+/// @says probe router key read_payload, 0 key bytes
+#[kani::proof]
+#[kani::unwind(3)]
+fn probe_r0() {
+    let w: [u8; 24] = kani::any();
+    let v: u8 = kani::any();
+    let h = pdu::Header::new(v, 9, 0, 32);
+    let mut rd = &w[..];
+    let back = block_on(pdu::RouterKey::read_payload(h, &mut rd), 1).unwrap().unwrap();
+    assert!(back.asn().into_u32() == be32(&w, 20));
+    std::mem::forget(back);
+}
+
+/// @tier exp
+/// @says probe aspa: result not unwrapped
+#[kani::proof]
+#[kani::unwind(3)]
+fn probe_d5() {
+    let w: [u8; 4] = kani::any();
+    let v: u8 = kani::any();
+    let h = pdu::Header::new(v, 11, 0, 12);
+    let mut rd = &w[..];
+    let back = block_on(pdu::Aspa::read_payload(h, &mut rd), 1);
+    match back {
+        Some(Ok(ref a)) => { assert!(a.customer().into_u32() == be32(&w, 0)); }
+        _ => {}
+    }
+    std::mem::forget(back);
+}
+
+async fn my_read<S: tokio::io::AsyncRead + Unpin>(sock: &mut S, len: usize) -> Result<Bytes, std::io::Error> {
+    let mut v = vec![0u8; len];
+    sock.read_exact(v.as_mut()).await?;
+    Ok(v.into())
+}
+async fn my_read_vec<S: tokio::io::AsyncRead + Unpin>(sock: &mut S, len: usize) -> Result<Vec<u8>, std::io::Error> {
+    let mut v = vec![0u8; len];
+    sock.read_exact(v.as_mut()).await?;
+    Ok(v)
+}
+async fn my_read_noq<S: tokio::io::AsyncRead + Unpin>(sock: &mut S, len: usize) -> Vec<u8> {
+    let mut v = vec![0u8; len];
+    let _ = sock.read_exact(v.as_mut()).await;
+    v
+}
+
+/// @tier exp
+/// @says probe t1
+#[kani::proof]
+#[kani::unwind(3)]
+fn probe_t1() {
+    let w: [u8; 4] = kani::any();
+    let mut rd = &w[..];
+    let b = block_on(my_read(&mut rd, 4), 1).unwrap().unwrap();
+    assert!(b.as_ref()[0] == w[0] && b.len() == 4);
+    std::mem::forget(b);
+}
+/// @tier exp
+/// @says probe t2
+#[kani::proof]
+#[kani::unwind(3)]
+fn probe_t2() {
+    let w: [u8; 4] = kani::any();
+    let mut rd = &w[..];
+    let b = block_on(my_read_vec(&mut rd, 4), 1).unwrap().unwrap();
+    assert!(b[0] == w[0] && b.len() == 4);
+    std::mem::forget(b);
+}
+/// @tier exp
+/// @says probe t3
+#[kani::proof]
+#[kani::unwind(3)]
+fn probe_t3() {
+    let w: [u8; 4] = kani::any();
+    let mut rd = &w[..];
+    let b = block_on(my_read_noq(&mut rd, 4), 1).unwrap();
+    assert!(b[0] == w[0] && b.len() == 4);
+    std::mem::forget(b);
+}
+
+#[derive(Default, Clone, Copy)]
+#[repr(C, packed)]
+struct MyFixed { header: [u8; 8], customer: u32 }
+impl MyFixed {
+    fn as_mut(&mut self) -> &mut [u8] {
+        unsafe { std::slice::from_raw_parts_mut(self as *mut Self as *mut u8, 12) }
+    }
+}
+struct MyAspa { fixed: MyFixed, providers: Bytes }
+
+async fn my_read_payload<S: tokio::io::AsyncRead + Unpin>(header: pdu::Header, sock: &mut S) -> Result<MyAspa, std::io::Error> {
+    let provider_len = match header.pdu_len()?.checked_sub(12) {
+        Some(len) => {
+            if len % 4 != 0 {
+                return Err(std::io::Error::new(std::io::ErrorKind::InvalidData, "invalid length for ASPA PDU"))
+            }
+            len
+        }
+        None => {
+            return Err(std::io::Error::new(std::io::ErrorKind::InvalidData, "invalid length for ASPA PDU"))
+        }
+    };
+    let mut fixed = MyFixed { header: [0; 8], .. Default::default() };
+    sock.read_exact(&mut fixed.as_mut()[8..]).await?;
+    let providers = my_read(sock, provider_len).await?;
+    Ok(MyAspa { fixed, providers })
+}
+
+async fn my_read_payload2<S: tokio::io::AsyncRead + Unpin>(header: pdu::Header, sock: &mut S) -> Result<MyAspa, std::io::Error> {
+    let provider_len = header.length() as usize - 12;
+    let mut fixed = MyFixed { header: [0; 8], .. Default::default() };
+    sock.read_exact(&mut fixed.as_mut()[8..]).await?;
+    let providers = my_read(sock, provider_len).await?;
+    Ok(MyAspa { fixed, providers })
+}
+
+/// @tier exp
+/// @says probe u1
+#[kani::proof]
+#[kani::unwind(3)]
+fn probe_u1() {
+    let w: [u8; 8] = kani::any();
+    let v: u8 = kani::any();
+    let h = pdu::Header::new(v, 11, 0, 16);
+    let mut rd = &w[..];
+    let b = block_on(my_read_payload(h, &mut rd), 1).unwrap().unwrap();
+    assert!(b.providers.len() == 4);
+    std::mem::forget(b);
+}
+/// @tier exp
+/// @says probe u2
+#[kani::proof]
+#[kani::unwind(3)]
+fn probe_u2() {
+    let w: [u8; 8] = kani::any();
+    let v: u8 = kani::any();
+    let h = pdu::Header::new(v, 11, 0, 16);
+    let mut rd = &w[..];
+    let b = block_on(my_read_payload2(h, &mut rd), 1).unwrap().unwrap();
+    assert!(b.providers.len() == 4);
+    std::mem::forget(b);
+}
+
+async fn my_two_reads<S: tokio::io::AsyncRead + Unpin>(sock: &mut S) -> Result<(Bytes, Bytes), std::io::Error> {
+    let a = my_read(sock, 4).await?;
+    let b = my_read(sock, 4).await?;
+    Ok((a, b))
+}
+async fn my_two_fixed<S: tokio::io::AsyncRead + Unpin>(sock: &mut S) -> Result<(MyFixed, MyFixed), std::io::Error> {
+    let mut fixed = MyFixed { header: [0; 8], .. Default::default() };
+    sock.read_exact(&mut fixed.as_mut()[8..]).await?;
+    let mut fixed2 = MyFixed { header: [0; 8], .. Default::default() };
+    sock.read_exact(&mut fixed2.as_mut()[8..]).await?;
+    Ok((fixed, fixed2))
+}
+async fn my_fixed_then_vec<S: tokio::io::AsyncRead + Unpin>(sock: &mut S) -> Result<(MyFixed, Vec<u8>), std::io::Error> {
+    let mut fixed = MyFixed { header: [0; 8], .. Default::default() };
+    sock.read_exact(&mut fixed.as_mut()[8..]).await?;
+    let mut v = vec![0u8; 4];
+    sock.read_exact(v.as_mut()).await?;
+    Ok((fixed, v))
+}
+
+/// @tier exp
+/// @says probe u3
+#[kani::proof]
+#[kani::unwind(3)]
+fn probe_u3() {
+    let w: [u8; 8] = kani::any();
+    let mut rd = &w[..];
+    let b = block_on(my_two_reads(&mut rd), 1).unwrap().unwrap();
+    assert!(b.1.len() == 4);
+    std::mem::forget(b);
+}
+/// @tier exp
+/// @says probe u4
+#[kani::proof]
+#[kani::unwind(3)]
+fn probe_u4() {
+    let w: [u8; 8] = kani::any();
+    let mut rd = &w[..];
+    let b = block_on(my_two_fixed(&mut rd), 1).unwrap().unwrap();
+    assert!(b.1.customer == u32::from_ne_bytes([w[4], w[5], w[6], w[7]]));
+}
+/// @tier exp
+/// @says probe u5
+#[kani::proof]
+#[kani::unwind(3)]
+fn probe_u5() {
+    let w: [u8; 8] = kani::any();
+    let mut rd = &w[..];
+    let b = block_on(my_fixed_then_vec(&mut rd), 1).unwrap().unwrap();
+    assert!(b.1.len() == 4);
+    std::mem::forget(b);
+}
+
+async fn my_fixed_then_nested_vec<S: tokio::io::AsyncRead + Unpin>(sock: &mut S) -> Result<(MyFixed, Vec<u8>), std::io::Error> {
+    let mut fixed = MyFixed { header: [0; 8], .. Default::default() };
+    sock.read_exact(&mut fixed.as_mut()[8..]).await?;
+    let v = my_read_vec(sock, 4).await?;
+    Ok((fixed, v))
+}
+/// @tier exp
+/// @says probe u6
+#[kani::proof]
+#[kani::unwind(3)]
+fn probe_u6() {
+    let w: [u8; 8] = kani::any();
+    let mut rd = &w[..];
+    let b = block_on(my_fixed_then_nested_vec(&mut rd), 1).unwrap().unwrap();
+    assert!(b.1.len() == 4);
+    std::mem::forget(b);
+}
+
+/// @tier exp
+/// @says probe write only
+#[kani::proof]
+#[kani::unwind(6)]
+fn probe_a_router_key_write() {
+    const N: usize = 4;
+    let ki: [u8; 20] = kani::any();
+    let asn: u32 = kani::any();
+    let info: [u8; N] = kani::any();
+    let v: u8 = kani::any();
+    kani::assume(v >= 1);
+    let key = payload::RouterKey::new(
+        ki.into(), Asn::from_u32(asn),
+        RouterKeyInfo::new(Bytes::copy_from_slice(&info)).unwrap());
+    let p = Payload::new_if_supported(v, Action::Announce.into_flags(),
+                                      PayloadRef::RouterKey(&key)).unwrap();
+    let mut wire = ArrayWriter::<48>::new();
+    block_on(p.write(&mut wire), 1).unwrap().unwrap();
+    assert_eq!(wire.len, 32 + N);
+    kani::cover!(wire.buf[35] == 7);
+    assert!(wire.buf[35] == info[3]);
+    std::mem::forget(p);
+    std::mem::forget(key);
+}
+
+/// @tier exp
+/// @says probe rsync parse 12 bytes
+#[kani::proof]
+#[kani::unwind(14)]
+fn probe_rsync12() {
+    let mut b: [u8; 12] = kani::any();
+    b[0] = b'r'; b[1] = b's'; b[2] = b'y'; b[3] = b'n'; b[4] = b'c'; b[5] = b':'; b[6] = b'/'; b[7] = b'/';
+    let r = rpki::uri::Rsync::from_slice(&b);
+    kani::cover!(r.is_ok());
+    if let Ok(u) = &r {
+        assert!(u.as_slice().len() == 12);
+    }
+    std::mem::forget(r);
+}
+
+/// @tier exp
+/// @says probe payload read of ipv4 prefix, slice reader
+#[kani::proof]
+#[kani::unwind(3)]
+fn probe_e2_payload_read_v4() {
+    let mut w: [u8; 20] = kani::any();
+    w[1] = 4;
+    w[4] = 0; w[5] = 0; w[6] = 0; w[7] = 20;
+    let mut rd = &w[..];
+    let back = block_on(pdu::Payload::read(&mut rd), 1).unwrap().unwrap();
+    kani::cover!(w[15] == 7);
+    match back {
+        Ok(Some(Payload::V4(ref k))) => {
+            assert!(k.asn().into_u32() == be32(&w, 16));
+        }
+        _ => panic!("wrong kind"),
+    }
+    std::mem::forget(back);
+}
+
+/// @tier exp
+/// @says probe payload read of end of data, slice reader
+#[kani::proof]
+#[kani::unwind(3)]
+fn probe_e3_payload_read_eod() {
+    let mut w: [u8; 24] = kani::any();
+    w[0] = 1;
+    w[1] = 7;
+    w[4] = 0; w[5] = 0; w[6] = 0; w[7] = 24;
+    let mut rd = &w[..];
+    let back = block_on(pdu::Payload::read(&mut rd), 1).unwrap().unwrap();
+    kani::cover!(w[15] == 7);
+    match back {
+        Err(ref e) => {
+            assert!(e.state().serial().0 == be32(&w, 8));
+        }
+        _ => panic!("wrong kind"),
+    }
+    std::mem::forget(back);
+}
